@@ -2,8 +2,9 @@ import ScriggoV.Model.LinkDestInline
 import ScriggoV.Lemmas.LinkDestFence
 import ScriggoV.Spec.CommonMarkCodeSpan
 /-! Lemmas for the inline scanner of C29: what the loop does, with its tests in the regenerated
-order, on a backtick in normal state, on any byte inside a code span, and on the closing
-backtick string. -/
+order, on a backtick in normal state, on any byte and on any backtick string inside a code span, and on
+the closing backtick string (the rule of fix 8b404d9: a backtick string is passed over as a
+whole, one of another length is content). -/
 namespace ScriggoV.LinkDest
 open ScriggoV.Gen.LinkDestInline ScriggoV.CommonMarkCodeSpan
 
@@ -59,41 +60,149 @@ theorem countRun_append_last (s x : Bytes) (hne : s ≠ []) (hl : s.getLast? ≠
         rw [countRun_cons_self, countRun_cons_self, this]
       · simp [countRun, hc]
 
-/-- the step taken on a byte inside a code span, when the backticks that begin here are not
-exactly `cs`: the byte is passed over, whatever it is -/
-theorem firstStep_in_codespan (depth cs : Nat) (c : UInt8) (rest : Bytes) (hcs : 0 < cs)
-    (h : countRun 96 (c :: rest) ≠ cs) :
+/-- the step taken on a byte inside a code span that is no backtick: it is passed over -/
+theorem firstStep_in_codespan_byte (depth cs : Nat) (c : UInt8) (rest : Bytes) (hcs : 0 < cs)
+    (hc : c ≠ 96) :
     firstStep loopOrder depth cs c rest = .go 1 depth cs none := by
   have hcs' : cs > 0 := hcs
-  by_cases hc : c = 96
-  · subst hc
-    simp [loopOrder, firstStep, handler, hcs', h]
-  · simp [loopOrder, firstStep, handler, hcs', hc]
+  simp [loopOrder, firstStep, handler, hcs', hc]
 
-/-- inside a code span every byte of a content without a backtick string of `n` or more
-backticks is literal: the scan reaches the end of the content in the same state -/
-theorem scanInline_content (n : Nat) (hn : 0 < n) (tail : Bytes) : ∀ (body : Bytes) (depth pos : Nat),
-    stringsBelow n body = true → body.getLast? ≠ some 96 →
-    scanInline 0 depth n pos (body ++ tail) = scanInline 0 depth n (pos + body.length) tail := by
-  intro body
-  induction body with
-  | nil => intro depth pos _ _; simp
+/-- the step taken on a backtick inside a code span, when the backtick string that begins here
+is not exactly `cs` long: the whole string is passed over (fix 8b404d9) -/
+theorem firstStep_in_codespan_run (depth cs : Nat) (rest : Bytes) (hcs : 0 < cs)
+    (h : countRun 96 (96 :: rest) ≠ cs) :
+    firstStep loopOrder depth cs 96 rest = .go (countRun 96 (96 :: rest)) depth cs none := by
+  have hcs' : cs > 0 := hcs
+  simp [loopOrder, firstStep, handler, hcs', h]
+
+theorem ticks_succ (m : Nat) (X : Bytes) : ticks (m + 1) ++ X = 96 :: (ticks m ++ X) := by
+  simp [ticks, List.replicate_succ]
+
+/-- inside a code span of `n`, a whole backtick string of another length is content -/
+theorem scanInline_other_string (n j : Nat) (hn : 0 < n) (hj : 0 < j) (hjn : j ≠ n) (X : Bytes)
+    (hX : X.head? ≠ some 96) (depth pos : Nat) :
+    scanInline 0 depth n pos (ticks j ++ X) = scanInline 0 depth n (pos + j) X := by
+  obtain ⟨m, rfl⟩ : ∃ m, j = m + 1 := ⟨j - 1, by omega⟩
+  have hrun : countRun 96 (96 :: (ticks m ++ X)) = m + 1 := by
+    have := countRun_replicate 96 (m + 1) X hX
+    simpa [ticks, List.replicate_succ] using this
+  have hlen : (ticks m).length = m := by simp [ticks]
+  rw [ticks_succ,
+    scanInline_step_none _ _ _ _ _ _ _ _ (firstStep_in_codespan_run depth n _ hn (by rw [hrun]; exact hjn)),
+    hrun, Nat.add_sub_cancel]
+  have s1 := scanInline_skip (ticks m) depth n (pos + 1) X
+  rw [hlen] at s1
+  rw [s1]
+  congr 1
+  omega
+
+theorem noStringOf_of_stringsBelow (n : Nat) : ∀ (l : Bytes) (pt : Bool),
+    stringsBelow n l = true → noStringOf n pt l = true := by
+  intro l
+  induction l with
+  | nil => intro _ _; rfl
   | cons c r ih =>
-    intro depth pos hb hl
-    simp only [stringsBelow, Bool.and_eq_true, decide_eq_true_eq] at hb
-    have hrun : countRun 96 (c :: (r ++ tail)) ≠ n := by
-      have := countRun_append_last (c :: r) tail (by simp) hl
-      rw [List.cons_append] at this
-      rw [this, ← tickPrefix_eq_countRun]
-      omega
-    have hl' : r.getLast? ≠ some 96 := by
-      cases r with
-      | nil => simp
-      | cons d t => simpa [List.getLast?_cons_cons] using hl
-    rw [List.cons_append,
-      scanInline_step_none _ _ _ _ _ _ _ _ (firstStep_in_codespan depth n c (r ++ tail) hn hrun),
-      Nat.sub_self, ih depth (pos + 1) hb.2 hl', List.length_cons,
-      show pos + 1 + r.length = pos + (r.length + 1) by omega]
+    intro pt h
+    simp only [stringsBelow, Bool.and_eq_true, decide_eq_true_eq] at h
+    simp only [noStringOf, Bool.and_eq_true, Bool.or_eq_true, bne_iff_ne, ne_eq]
+    exact ⟨Or.inr (by omega), ih _ h.2⟩
+
+/-- after a backtick string, what follows contains no string of `n` either -/
+theorem noStringOf_after_ticks (n : Nat) : ∀ (j : Nat) (pt : Bool) (l : Bytes),
+    noStringOf n pt (ticks j ++ l) = true → 0 < j → noStringOf n true l = true
+  | 0, _, _, _, h => absurd h (by omega)
+  | j + 1, pt, l, hns, _ => by
+    rw [ticks_succ] at hns
+    simp only [noStringOf, Bool.and_eq_true] at hns
+    cases j with
+    | zero => simpa [ticks] using hns.2
+    | succ k => exact noStringOf_after_ticks n (k + 1) _ l hns.2 (by omega)
+
+theorem noStringOf_prev_irrelevant (n : Nat) (l : Bytes) (h : l.head? ≠ some 96) :
+    noStringOf n false l = noStringOf n true l := by
+  cases l with
+  | nil => rfl
+  | cons c r =>
+    have : c ≠ 96 := fun e => h (by simp [e])
+    simp [noStringOf, this]
+
+/-- inside a code span of `n` every byte of a content without a backtick string of exactly `n`
+backticks is literal — longer and shorter strings included: the scan reaches the end of the
+content in the same state -/
+theorem scanInline_content_full (n : Nat) (hn : 0 < n) (tail : Bytes) :
+    ∀ (k : Nat) (body : Bytes) (depth pos : Nat), body.length ≤ k →
+    noStringOf n false body = true → body.getLast? ≠ some 96 →
+    scanInline 0 depth n pos (body ++ tail) = scanInline 0 depth n (pos + body.length) tail := by
+  intro k
+  induction k with
+  | zero =>
+    intro body depth pos hk _ _
+    have : body = [] := List.eq_nil_of_length_eq_zero (by omega)
+    subst this; simp
+  | succ k ih =>
+    intro body depth pos hk hns hl
+    cases body with
+    | nil => simp
+    | cons c r =>
+      by_cases hc : c = 96
+      · subst hc
+        have hjn : countRun 96 (96 :: r) ≠ n := by
+          have h1 := hns
+          simp only [noStringOf, Bool.and_eq_true] at h1
+          rw [← tickPrefix_eq_countRun]
+          simpa using h1.1
+        have hjpos : 0 < countRun 96 (96 :: r) := by rw [countRun_cons_self]; omega
+        have hsplit := countRun_split 96 (96 :: r)
+        generalize countRun 96 (96 :: r) = j at hsplit hjn hjpos
+        generalize (96 :: r).drop j = r' at hsplit
+        obtain ⟨hbody, hhead⟩ := hsplit
+        have hr' : r' ≠ [] := by
+          intro e
+          subst e
+          apply hl
+          rw [hbody, List.append_nil]
+          obtain ⟨m, rfl⟩ : ∃ m, j = m + 1 := ⟨j - 1, by omega⟩
+          simp [List.replicate_succ', List.getLast?_append]
+        have hlen : (96 :: r).length = j + r'.length := by
+          rw [hbody]; simp
+        have hl' : r'.getLast? ≠ some 96 := by
+          intro e
+          apply hl
+          rw [hbody, List.getLast?_append, e]; rfl
+        have hns' : noStringOf n false r' = true := by
+          rw [noStringOf_prev_irrelevant n r' hhead]
+          exact noStringOf_after_ticks n j false r' (by rw [ticks, ← hbody]; exact hns) hjpos
+        have hX : (r' ++ tail).head? ≠ some 96 := by
+          cases r' with
+          | nil => exact absurd rfl hr'
+          | cons d t => simpa using hhead
+        rw [hlen, hbody, List.append_assoc]
+        rw [show List.replicate j (96 : UInt8) = ticks j from rfl,
+          scanInline_other_string n j hn hjpos hjn _ hX,
+          ih r' depth (pos + j) (by simp only [List.length_cons] at hk hlen; omega) hns' hl']
+        congr 1
+        omega
+      · have hl' : r.getLast? ≠ some 96 := by
+          cases r with
+          | nil => simp
+          | cons d t => simpa [List.getLast?_cons_cons] using hl
+        have hns' : noStringOf n false r = true := by
+          have h1 := hns
+          simp only [noStringOf, Bool.and_eq_true] at h1
+          have : (c == 96) = false := by simp [hc]
+          rw [this] at h1
+          exact h1.2
+        rw [List.cons_append,
+          scanInline_step_none _ _ _ _ _ _ _ _ (firstStep_in_codespan_byte depth n c (r ++ tail) hn hc),
+          Nat.sub_self, ih r depth (pos + 1) (by simp only [List.length_cons] at hk; omega) hns' hl',
+          List.length_cons, show pos + 1 + r.length = pos + (r.length + 1) by omega]
+
+/-- the same for a content all of whose backtick strings are shorter than `n` -/
+theorem scanInline_content (n : Nat) (hn : 0 < n) (tail : Bytes) (body : Bytes) (depth pos : Nat)
+    (hs : stringsBelow n body = true) (hl : body.getLast? ≠ some 96) :
+    scanInline 0 depth n pos (body ++ tail) = scanInline 0 depth n (pos + body.length) tail :=
+  scanInline_content_full n hn tail body.length body depth pos (Nat.le_refl _)
+    (noStringOf_of_stringsBelow n body false hs) hl
 
 /-- a backtick outside a code span opens one, as long as its run -/
 theorem firstStep_open (depth : Nat) (rest : Bytes) :
@@ -101,28 +210,17 @@ theorem firstStep_open (depth : Nat) (rest : Bytes) :
       .go (countRun 96 (96 :: rest)) depth (countRun 96 (96 :: rest)) none := by
   simp [loopOrder, firstStep, handler]
 
-theorem afterRun_ok (l : Bytes) : notTickNext (l.drop (countRun 96 l)) = true := by
-  have h := (countRun_split 96 l).2
-  cases hd : l.drop (countRun 96 l) with
-  | nil => rfl
-  | cons d t =>
-    rw [hd] at h
-    have : d ≠ 96 := fun e => h (by simp [e])
-    simp [notTickNext, this]
-
 /-- inside a code span of `n`, a backtick string of exactly `n` closes it -/
 theorem firstStep_close (depth n : Nat) (rest : Bytes) (hn : 0 < n)
     (h : countRun 96 (96 :: rest) = n) :
     firstStep loopOrder depth n 96 rest = .go n depth 0 none := by
   have hn' : n > 0 := hn
-  have ha := afterRun_ok (96 :: rest)
-  rw [h] at ha
-  simp [loopOrder, firstStep, handler, hn', h, ha]
+  simp [loopOrder, firstStep, handler, hn', h]
 
 /-- the whole code span: opening string, content, closing string -/
 theorem scanInline_codespan (n : Nat) (body rest : Bytes) (depth pos : Nat) (hn : 0 < n)
     (hb : body ≠ []) (hh : body.head? ≠ some 96) (hl : body.getLast? ≠ some 96)
-    (hs : stringsBelow n body = true) (hr : rest.head? ≠ some 96) :
+    (hs : noStringOf n false body = true) (hr : rest.head? ≠ some 96) :
     scanInline 0 depth 0 pos (ticks n ++ (body ++ (ticks n ++ rest))) =
       scanInline 0 depth 0 (pos + (n + body.length + n)) rest := by
   obtain ⟨m, rfl⟩ : ∃ m, n = m + 1 := ⟨n - 1, by omega⟩
@@ -142,7 +240,7 @@ theorem scanInline_codespan (n : Nat) (body rest : Bytes) (depth pos : Nat) (hn 
   rw [e1, scanInline_step_none _ _ _ _ _ _ _ _ (firstStep_open depth _), hopen, Nat.add_sub_cancel]
   have s1 := scanInline_skip (ticks m) depth (m + 1) (pos + 1) (body ++ (ticks (m + 1) ++ rest))
   rw [hlen] at s1
-  rw [s1, scanInline_content (m + 1) (by omega) _ body depth _ hs hl, e1,
+  rw [s1, scanInline_content_full (m + 1) (by omega) _ body.length body depth _ (Nat.le_refl _) hs hl, e1,
     scanInline_step_none _ _ _ _ _ _ _ _ (firstStep_close depth (m + 1) _ (by omega) hclose),
     Nat.add_sub_cancel]
   have s2 := scanInline_skip (ticks m) depth 0 (pos + 1 + m + body.length + 1) rest
